@@ -80,6 +80,8 @@ def layer_chunklist(c, b, scaled, replay=None):
 
 
 def run(c, replay):
+    if replay:
+        replay = os.path.abspath(replay)   # workers run in their own directories
     notes = []
     ov = c.harness_overlay("src", FILES)
     if replay:
